@@ -440,4 +440,30 @@ Proof.
   - subst bs. destruct (a_run a0); [contradiction | reflexivity].
 Qed.
 
+
+(* a snapshot taken when nothing has been done since the last checkpoint-like message (what the rewindable toggles
+   of the suspender plan do): the relation is kept *)
+Lemma snapshot_BR bs a0 aend :
+  BR bs a0 a0 aend -> wfa a0 -> wfa aend ->
+  BR (map (fun kb => (fst kb, b_snapshot (snd kb))) bs) a0 a0 aend.
+Proof.
+  intros HBR Hw0 Hwe. unfold BR in *. destruct (a_run a0) as [r0|] eqn:E0.
+  - destruct HBR as (b & X & Y & r0' & rend & Hbs & H0 & He & Hb0 & HR & Hsc & Hp1 & Hp2). injection H0 as <-.
+    destruct HR as (R1 & R2 & R3 & R4 & R5).
+    unfold wfa in Hw0, Hwe. rewrite E0 in Hw0. rewrite He in Hwe.
+    destruct Hw0 as (V1 & V2 & V3 & V4). destruct Hwe as (W1 & W2 & W3 & W4).
+    assert (Hnd : NoDup (keys (bdescs b))).
+    { destruct Hp2 as [q Hq]. rewrite W2, Hq, keys_app in W1. apply NoDup_app_inv in W1. apply W1. }
+    subst bs. cbn [map fst snd].
+    exists (b_snapshot b), X, X, r0, rend.
+    split; [reflexivity|]. split; [reflexivity|]. split; [exact He|]. split; [exact Hb0|].
+    split; [unfold Rb; cbn; repeat split; assumption|].
+    split; [|split; [cbn; rewrite R4; apply prefix_refl | cbn; exact Hp2]].
+    cbn. change (fold_set (bseq b) (bseqcopy b) = ab_seq r0 ++ ones X). rewrite <- R5.
+    apply fold_set_prefix.
+    + rewrite R5, keys_app, keys_ones, V2, <- keys_app, <- R4. exact Hnd.
+    + rewrite Hsc, R5, !keys_app, !keys_ones, V2, <- !keys_app, <- R4. apply prefix_map. exact Hp1.
+  - subst bs. reflexivity.
+Qed.
+
 End B.
